@@ -1,6 +1,6 @@
 (* C16 — property theorems only: each restates the full statement and is closed by the lemma proved in Proofs/. *)
 From Coq Require Import ZArith List Bool.
-From NPS Require Import ListAux PySlice NumpySem Scatter BuildIdx XorBroadcast View Index Assign Reduce Scan RaOps Heap Hash HashRun BitArr RLE RLEOps RLE2d DataClass RowsSpec AssignSpec MapSpec Denote BinaryProof RLEMisc RLConcat.
+From NPS Require Import ListAux PySlice NumpySem Scatter BuildIdx XorBroadcast View Index Assign Reduce Scan RaOps Heap Hash HashRun BitArr RLE RLEOps RLE2d DataClass RowsSpec AssignSpec MapSpec Denote BinaryProof RLEMisc RLConcat RLEReduce.
 Import ListNotations.
 Open Scope Z_scope.
 
@@ -30,6 +30,46 @@ Theorem C16_rl_sum_correct :
        all_nonneg (diffs (fst r)) -> length (snd r) = length (diffs (fst r)) -> rl_sum r = zsum (decode Z r).
 Proof. exact rl_sum_correct. Qed.
 Print Assumptions C16_rl_sum_correct.
+
+Theorem C16_rl_any_correct :
+  forall r : rla bool,
+       Forall (fun l : Z => 1 <= l) (diffs (fst r)) ->
+       length (snd r) = length (diffs (fst r)) -> rl_any r = existsb (fun b : bool => b) (decode bool r).
+Proof. exact rl_any_correct. Qed.
+Print Assumptions C16_rl_any_correct.
+
+Theorem C16_rl_all_correct :
+  forall r : rla bool,
+       Forall (fun l : Z => 1 <= l) (diffs (fst r)) ->
+       length (snd r) = length (diffs (fst r)) -> rl_all r = forallb (fun b : bool => b) (decode bool r).
+Proof. exact rl_all_correct. Qed.
+Print Assumptions C16_rl_all_correct.
+
+Theorem C16_rl_max_correct :
+  forall r : rla Z,
+       Forall (fun l : Z => 1 <= l) (diffs (fst r)) ->
+       length (snd r) = length (diffs (fst r)) ->
+       snd r <> [] -> match decode Z r with
+                      | [] => False
+                      | x :: d => rl_max r = fold_left Z.max d x
+                      end.
+Proof. exact rl_max_correct. Qed.
+Print Assumptions C16_rl_max_correct.
+
+Theorem C16_rl_mean_correct :
+  forall r : rla Z,
+       all_nonneg (diffs (fst r)) ->
+       length (snd r) = length (diffs (fst r)) -> fst (rl_mean r) = zsum (decode Z r).
+Proof. exact rl_mean_correct. Qed.
+Print Assumptions C16_rl_mean_correct.
+
+Theorem C16_rl_hist_correct :
+  forall (bin_of : Z -> nat) (nbins : nat) (r : rla Z),
+       all_nonneg (diffs (fst r)) ->
+       length (snd r) = length (diffs (fst r)) ->
+       rl_hist bin_of nbins r = dense_hist bin_of nbins (decode Z r).
+Proof. exact rl_hist_correct. Qed.
+Print Assumptions C16_rl_hist_correct.
 
 Theorem C16_rl_concat_correct :
   forall (A : Type) (ps : list (list Z * list A)),
